@@ -1225,6 +1225,19 @@ func main() {
 		fmt.Fprintf(&ft, "def encodeSendCount : Nat := %d\n\n", n)
 	}
 	emitSites := func(name, doc string, ss []site) {
+		// sorted by (file, function, what): the inventories do not depend on where in its file a
+		// function stands, nor on the order of independent statements inside it
+		ss = append([]site(nil), ss...)
+		sort.SliceStable(ss, func(i, j int) bool {
+			a, b := ss[i], ss[j]
+			if a.file != b.file {
+				return a.file > b.file // server.go before client.go, as before
+			}
+			if a.fn != b.fn {
+				return a.fn < b.fn
+			}
+			return a.what < b.what
+		})
 		fmt.Fprintf(&ft, "/-- %s -/\ndef %s : List Site := [\n", doc, name)
 		for i, s := range ss {
 			comma := ","
